@@ -120,11 +120,9 @@ class ModDelItem(ListOp):
     def ghost_witness(self, c0, c1, a, res):
         w = a.self.t
         i = self.idx(c0, a)
-        m = fresh("m", Int)
         pos0 = c0.arr("$modpos")
-        mine = c0.get("_ir", m) == owner(c0, w)
-        return {"$modpos": z3.Lambda([m], z3.If(z3.And(mine, z3.Select(pos0, m) > i), z3.Select(pos0, m) - 1,
-                                                z3.Select(pos0, m)))}
+        return {"$modpos": lambda m: z3.If(z3.And(c0.get("_ir", m) == owner(c0, w), z3.Select(pos0, m) > i),
+                                           z3.Select(pos0, m) - 1, z3.Select(pos0, m))}
 
     def post(self, c0, c1, a, res):
         w = a.self.t
@@ -141,10 +139,298 @@ class ModDelItem(ListOp):
                                                                         length(c1, w2) == length(c0, w2))))
         n = fresh("n", Int)
         out["other_parents"] = z3.ForAll([n], z3.Implies(n != v, c1.get("_ir", n) == c0.get("_ir", n)))
+        out.update(self.lemmas(c0, c1, a, res))     # exported for callers: how attachment changed
         return out
+
+    def lemmas(self, c0, c1, a, res):
+        w = a.self.t
+        i = self.idx(c0, a) if "i" in a else z3.Select(c0.arr("$modpos"), a.v.t)
+        v = ref(z3.Select(items(c0, w), i))
+        n = fresh("n", Int)
+        return {
+            "subtree_shape_unchanged": z3.ForAll([n], K.in_subtree(c1, v, n, "Module") == K.in_subtree(c0, v, n, "Module")),
+            "ir_of_unchanged_outside": z3.ForAll([n], z3.Implies(
+                z3.And(K.is_node(c0, n), z3.Not(K.in_subtree(c0, v, n, "Module"))), K.ir_of(c1, n) == K.ir_of(c0, n))),
+            "ir_of_subtree": z3.ForAll([n], z3.Implies(K.in_subtree(c0, v, n, "Module"), K.ir_of(c1, n) == VNone)),
+        }
 
 
 def register(reg):
     reg.allow_inline("util.py::ListWrapper.__len__", "util.py::ListWrapper.__getitem__")
     reg.add(ModRemoveHook())
     reg.add(ModDelItem())
+
+
+class ModRemove(ListOp):
+    """ir.modules.remove(v): ValueError when v is not in the list (nothing changes), else as del ir.modules[position of v]"""
+    target = "mro:IR._ModuleList.remove"
+    variant = ML
+
+    def __init__(self):
+        self.params = {"self": "ref:" + ML, "v": "ref:Module"}
+        super().__init__()
+
+    def selects(self, self_cls, args, kwargs=None):
+        return self_cls == ML
+
+    def pre(self, c, a):
+        out = self.base_pre(c, a)
+        out["is_module"] = c.isinst(a.v.t, "Module")
+        return out
+
+    def present(self, c0, a):
+        return c0.get("_ir", a.v.t) == owner(c0, a.self.t)
+
+    def raises(self, c0, a):
+        return {"ValueError": z3.Not(self.present(c0, a))}
+
+    def on_raise(self, c0, c1, a, exc):
+        return ModDelItem.on_raise(self, c0, c1, a, exc)
+
+    def _as_del(self, c0, a):
+        from pyvc.contracts import Args
+        from pyvc.core import sv_int
+        return Args({"self": a.self, "i": sv_int(z3.Select(c0.arr("$modpos"), a.v.t))})
+
+    def ghost_witness(self, c0, c1, a, res):
+        return ModDelItem.ghost_witness(_DEL, c0, c1, self._as_del(c0, a), res)
+
+    def post(self, c0, c1, a, res):
+        return ModDelItem.post(_DEL, c0, c1, self._as_del(c0, a), res)
+
+    def lemmas(self, c0, c1, a, res):
+        return ModDelItem.lemmas(_DEL, c0, c1, self._as_del(c0, a), res)
+
+    def before_call(self, callee, c, callee_args):
+        if "__delitem__" in callee:
+            # list.index returns the first position of v; without repetitions that is its recorded position
+            v = c.eng.cur_args.v.t
+            return {"index_is_pos": callee_args.i.t == z3.Select(c.arr("$modpos"), v)}
+        return {}
+
+
+class ModAddHook(ListOp):
+    """IR._ModuleList._add(v): take v out of the list that holds it (if any), point it to this IR and register its
+    subtree; v is then *pending*: owned by the IR but not yet in the list (ghost M_pending)."""
+    target = "ir.py::IR._ModuleList._add"
+
+    def __init__(self):
+        self.params = {"self": "ref:" + ML, "v": "ref:Module"}
+        super().__init__()
+
+    def pre(self, c, a):
+        out = self.base_pre(c, a)
+        out["is_module"] = c.isinst(a.v.t, "Module")
+        out["uuids_distinct_where_attached"] = attach_ok(c, owner(c, a.self.t), a.v.t, "Module")
+        return out
+
+    def post_ghost(self, c0, a):
+        return {"M_pending": a.v.t}
+
+    def lemmas(self, c0, c1, a, res):
+        v = a.v.t
+        n = fresh("n", Int)
+        new_ir = owner(c0, a.self.t)
+        return {
+            "subtree_same_ir": z3.ForAll([n], z3.Implies(K.in_subtree(c0, v, n, "Module"), K.ir_of(c0, n) == K.ir_of(c0, v)),
+                                         patterns=[K.ir_of(c0, n), K.uuid_of(c0, n)]),
+            "subtree_shape_unchanged": z3.ForAll([n], K.in_subtree(c1, v, n, "Module") == K.in_subtree(c0, v, n, "Module")),
+            "ir_of_unchanged_outside": z3.ForAll([n], z3.Implies(
+                z3.And(K.is_node(c0, n), z3.Not(K.in_subtree(c0, v, n, "Module"))), K.ir_of(c1, n) == K.ir_of(c0, n))),
+            "ir_of_subtree": z3.ForAll([n], z3.Implies(K.in_subtree(c0, v, n, "Module"), K.ir_of(c1, n) == new_ir)),
+        }
+
+    def ghost_witness(self, c0, c1, a, res):
+        # positions: if v was in some list, that list closed the gap (as in deletion)
+        v = a.v.t
+        was = c0.get("_ir", v)
+        pos0 = c0.arr("$modpos")
+        pv = z3.Select(pos0, v)
+        return {"$modpos": lambda m: z3.If(z3.And(is_VRef(was), c0.get("_ir", m) == was, z3.Select(pos0, m) > pv),
+                                           z3.Select(pos0, m) - 1, z3.Select(pos0, m))}
+
+    def post(self, c0, c1, a, res):
+        w, v = a.self.t, a.v.t
+        out = dict(WF(c1))
+        out["linked"] = c1.get("_ir", v) == owner(c0, w)
+        n = fresh("n", Int)
+        out["other_parents"] = z3.ForAll([n], z3.Implies(n != v, c1.get("_ir", n) == c0.get("_ir", n)))
+        # the list of the previous owner (possibly this very list) lost v and nothing else changed
+        was = c0.get("_ir", v)
+        oldw = ref(c0.get("modules", ref(was)))
+        w2 = fresh("w2", Int)
+        j = fresh("j", Int)
+        pv = z3.Select(c0.arr("$modpos"), v)
+        out["list_effect"] = z3.ForAll([w2], z3.If(
+            z3.And(is_VRef(was), w2 == oldw),
+            z3.And(length(c1, w2) == length(c0, w2) - 1,
+                   z3.ForAll([j], z3.Select(items(c1, w2), j) == z3.If(j < pv, z3.Select(items(c0, w2), j),
+                                                                        z3.Select(items(c0, w2), j + 1)))),
+            z3.And(items(c1, w2) == items(c0, w2), length(c1, w2) == length(c0, w2))))
+        return out
+
+    def before_call(self, callee, c, callee_args):
+        return {}
+
+
+_DEL = ModDelItem()
+
+
+_reg_prev = register
+
+
+def register(reg):
+    _reg_prev(reg)
+    reg.add(ModRemove())
+    reg.add(ModAddHook())
+
+
+def _mid(c0, w, v):
+    """the list right after v has been taken out of it (if it was there): (item function, length, was_here)"""
+    was_here = c0.get("_ir", v) == owner(c0, w)
+    p0 = z3.Select(c0.arr("$modpos"), v)
+    it0, n0 = items(c0, w), length(c0, w)
+    item = lambda j: z3.If(z3.And(was_here, j >= p0), z3.Select(it0, j + 1), z3.Select(it0, j))
+    return item, n0 - z3.If(was_here, 1, 0), was_here
+
+
+def _clamp(i, n):
+    return z3.If(i < 0, z3.If(i + n < 0, 0, i + n), z3.If(i > n, n, i))
+
+
+class ModInsert(ListOp):
+    """ir.modules.insert(i, v) (and append): v ends up at index clamp(i) of the list from which it has first been
+    removed if it was already there (an owned module is moved, not duplicated); it is attached to this IR."""
+    target = "mro:IR._ModuleList.insert"
+    variant = ML
+
+    def __init__(self):
+        self.params = {"self": "ref:" + ML, "i": "int", "v": "ref:Module"}
+        super().__init__()
+
+    def selects(self, self_cls, args, kwargs=None):
+        return self_cls == ML
+
+    def pre(self, c, a):
+        out = self.base_pre(c, a)
+        out["is_module"] = c.isinst(a.v.t, "Module")
+        out["uuids_distinct_where_attached"] = attach_ok(c, owner(c, a.self.t), a.v.t, "Module")
+        return out
+
+    def ghost_witness(self, c0, c1, a, res):
+        w, v = a.self.t, a.v.t
+        item, n_mid, was_here = _mid(c0, w, v)
+        idx = _clamp(a.i.t, n_mid)
+        pos_mid = c1.arr("$modpos")        # as left by _add (insert itself has no ghost code)
+        mine = lambda m: z3.And(c1.get("_ir", m) == owner(c0, w), m != v)
+        return {"$modpos": lambda m: z3.If(m == v, idx, z3.If(z3.And(mine(m), z3.Select(pos_mid, m) >= idx),
+                                                              z3.Select(pos_mid, m) + 1, z3.Select(pos_mid, m)))}
+
+    def post(self, c0, c1, a, res):
+        w, v = a.self.t, a.v.t
+        item, n_mid, was_here = _mid(c0, w, v)
+        idx = _clamp(a.i.t, n_mid)
+        j = fresh("j", Int)
+        out = dict(WF(c1))
+        out["view"] = z3.And(length(c1, w) == n_mid + 1, z3.ForAll([j], z3.Implies(
+            z3.And(0 <= j, j <= n_mid),
+            z3.Select(items(c1, w), j) == z3.If(j < idx, item(j), z3.If(j == idx, VRef(v), item(j - 1))))))
+        out["parent"] = c1.get("_ir", v) == owner(c0, w)
+        n = fresh("n", Int)
+        out["other_parents"] = z3.ForAll([n], z3.Implies(n != v, c1.get("_ir", n) == c0.get("_ir", n)))
+        return out
+
+    def before_call(self, callee, c, callee_args):
+        return {}
+
+
+class ModAppend(ModInsert):
+    target = "mro:IR._ModuleList.append"
+
+    def __init__(self):
+        super().__init__()
+        self.params = {"self": "ref:" + ML, "v": "ref:Module"}
+
+    def _with_i(self, c0, a):
+        from pyvc.contracts import Args
+        from pyvc.core import sv_int
+        return Args({"self": a.self, "v": a.v, "i": sv_int(length(c0, a.self.t))})
+
+    def ghost_witness(self, c0, c1, a, res):
+        return ModInsert.ghost_witness(self, c0, c1, self._with_i(c0, a), res)
+
+    def post(self, c0, c1, a, res):
+        return ModInsert.post(self, c0, c1, self._with_i(c0, a), res)
+
+
+_reg_prev2 = register
+
+
+def register(reg):
+    _reg_prev2(reg)
+    reg.add(ModInsert())
+    reg.add(ModAppend())
+
+
+class ModuleIrSetter(ListOp):
+    """module.ir = value: detach from the current IR (if any), append to value.modules (if not None)"""
+    target = "module.py::Module.ir.setter"
+
+    def __init__(self):
+        self.params = {"self": "ref:Module", "value": "optref:IR"}
+        super().__init__()
+
+    def pre(self, c, a):
+        val = to_val(a.value)
+        out = dict(WF(c))
+        out["is_module"] = c.isinst(a.self.t, "Module")
+        out["value_kind"] = z3.Or(is_VNone(val), z3.And(is_VRef(val), c.isinst(ref(val), "IR")))
+        out["uuids_distinct_where_attached"] = z3.Implies(is_VRef(val), attach_ok(c, val, a.self.t, "Module"))
+        return out
+
+    def ghost_witness(self, c0, c1, a, res):
+        return {}          # the callees (remove / append) carry their own witnesses
+
+    def post(self, c0, c1, a, res):
+        out = dict(WF(c1))
+        out["parent"] = c1.get("_ir", a.self.t) == to_val(a.value)
+        n = fresh("n", Int)
+        out["other_parents"] = z3.ForAll([n], z3.Implies(n != a.self.t, c1.get("_ir", n) == c0.get("_ir", n)))
+        return out
+
+    def before_call(self, callee, c, callee_args):
+        return {}
+
+
+class GetByUuid(Contract):
+    """IR.get_by_uuid(u): the table entry - with the table invariant (I1, I2): node n iff n is attached to this IR and
+    n.uuid == u, else None"""
+    target = "ir.py::IR.get_by_uuid"
+    props = ("C03", "C09")
+    params = {"self": "ref:IR", "uuid": "val"}
+    result = "val"
+
+    def pre(self, c, a):
+        return {"is_ir": c.isinst(a.self.t, "IR"), "wf_cache_I1": K.wf_cache_I1(c), "wf_cache_I2": K.wf_cache_I2(c),
+                "uuids_typed": K.uuids_typed(c)}
+
+    def post(self, c0, c1, a, res):
+        ir = a.self.t
+        n = fresh("n", Int)
+        r = to_val(res)
+        u = to_val(a.uuid)
+        return {
+            "found_is_attached_with_that_uuid": z3.Implies(z3.Not(is_VNone(r)), z3.And(
+                is_VRef(r), K.is_node(c0, ref(r)), K.ir_of(c0, ref(r)) == VRef(ir), K.uuid_of(c0, ref(r)) == u)),
+            "attached_nodes_are_found": z3.ForAll([n], z3.Implies(
+                z3.And(K.is_node(c0, n), K.ir_of(c0, n) == VRef(ir), K.uuid_of(c0, n) == u), r == VRef(n))),
+        }
+
+
+_reg_prev3 = register
+
+
+def register(reg):
+    _reg_prev3(reg)
+    reg.add(ModuleIrSetter())
+    reg.add(GetByUuid())
